@@ -566,3 +566,161 @@ func F12(maxLen int, variants []string) []*Case {
 	}
 	return out
 }
+
+// ---------------------------------------------------------------- F13: more than 256 rules, behaviourally
+
+// F13 places two copies of memo-heavy helper rules at rule numbers that differ by exactly 256
+// (k and 256+k), padded with reachable dummy rules, and lets S use both copies at adjacent
+// offsets: rule numbers beyond 8 bits must not be confused by the memo table or the rule type.
+func F13(maxLen int, variants []string, limit int) []*Case {
+	type x struct{ mk func(s string) *ag.Expr }
+	xs := []func(s string) *ag.Expr{
+		func(s string) *ag.Expr { return ag.N("R" + s) },
+		func(s string) *ag.Expr { return ag.S(lit("a"), ag.N("R"+s)) },
+		func(s string) *ag.Expr { return ag.S(ag.U(ag.And, ag.N("R"+s)), ag.N("B"+s)) },
+		func(s string) *ag.Expr { return ag.S(ag.N("B"+s), ag.N("R"+s)) },
+	}
+	var out []*Case
+	idx := 0
+	for i := range xs {
+		for j := range xs {
+			for _, order := range []string{"12", "21"} {
+				for k := range xs {
+					s1, s2 := string(order[0]), string(order[1])
+					g := &ag.Grammar{ID: fmt.Sprintf("F13/%d", idx)}
+					idx++
+					// rule 1: S ; rules 2,3: R1,B1 ; then padding up to number 257 ; rules 258,259: R2,B2
+					g.Rules = append(g.Rules, ag.Rule{Name: "S", Body: ag.A(
+						ag.S(xs[i](s1), lit("x")), ag.S(xs[j](s2), lit("y")), ag.S(xs[k](s1), ag.U(ag.Opt, lit("c"))), ag.S(lit("q"), ag.N("Pad")))})
+					g.Rules = append(g.Rules, ag.Rule{Name: "R1", Body: ag.U(ag.Cap, ag.S(lit("a"), ag.U(ag.Opt, ag.N("B1"))))}, ag.Rule{Name: "B1", Body: lit("b")})
+					var pads []*ag.Expr
+					for p := 0; p < 253; p++ {
+						pads = append(pads, ag.N(fmt.Sprintf("P%d", p)))
+					}
+					g.Rules = append(g.Rules, ag.Rule{Name: "Pad", Body: ag.A(pads...)})
+					for p := 0; p < 253; p++ {
+						g.Rules = append(g.Rules, ag.Rule{Name: fmt.Sprintf("P%d", p), Body: ag.S(lit("p"), lit(string(rune('0'+p%10))))})
+					}
+					g.Rules = append(g.Rules, ag.Rule{Name: "R2", Body: ag.U(ag.Cap, ag.S(lit("a"), ag.U(ag.Opt, ag.N("B2"))))}, ag.Rule{Name: "B2", Body: lit("b")})
+					g.Number()
+					if !wellFormed(g) {
+						continue
+					}
+					out = append(out, &Case{Family: "F13", G: g, Sigma: strs('a', 'b', 'x', 'y'), MaxLen: maxLen, Variants: variants, Mode: spec.ModeBehaviour})
+				}
+			}
+		}
+	}
+	if limit > 0 && len(out) > limit {
+		var pick []*Case
+		for i := 0; i < limit; i++ {
+			pick = append(pick, out[i*len(out)/limit])
+		}
+		out = pick
+	}
+	return out
+}
+
+// ---------------------------------------------------------------- F14: a choice directly under ? * +
+
+func F14(maxLen int, variants []string) []*Case {
+	alts := []func() *ag.Expr{
+		func() *ag.Expr { return lit("x") },
+		func() *ag.Expr { return ag.S(lit("a"), lit("b")) },
+		func() *ag.Expr { return lit("a") },
+		func() *ag.Expr { return ag.S(ag.U(ag.Cap, lit("a")), lit("b")) },
+		func() *ag.Expr { return ag.S(ag.N("A"), lit("b")) },
+		func() *ag.Expr { return ag.S(ag.Action(), lit("a"), lit("x")) },
+	}
+	tails := []func() *ag.Expr{
+		func() *ag.Expr { return ag.S(lit("a"), lit("c")) },
+		func() *ag.Expr { return ag.U(ag.Not, ag.D()) },
+	}
+	var out []*Case
+	idx := 0
+	for _, op := range []ag.Kind{ag.Opt, ag.Star, ag.Plus} {
+		for i := range alts {
+			for j := range alts {
+				if i == j {
+					continue
+				}
+				for _, t := range tails {
+					g := ag.G(fmt.Sprintf("F14/%d", idx), ag.Rule{Name: "S", Body: ag.S(ag.U(op, ag.A(alts[i](), alts[j]())), t())}, ag.Rule{Name: "A", Body: lit("a")})
+					idx++
+					reach := ag.Analyze(g).Reachable()
+					if !reach["A"] {
+						g.Rules = g.Rules[:1]
+					}
+					g.Number()
+					if !wellFormed(g) {
+						continue
+					}
+					out = append(out, &Case{Family: "F14", G: g, Sigma: strs('a', 'b', 'x', 'c'), MaxLen: maxLen, Variants: variants, Mode: spec.ModeBehaviour})
+				}
+			}
+		}
+	}
+	return out
+}
+
+// ---------------------------------------------------------------- F15: lookahead over a choice the -switch optimiser rewrites
+
+func F15(maxLen int, variants []string) []*Case {
+	bodies := []func(k string) *ag.Expr{
+		func(k string) *ag.Expr { return ag.S(lit(k), ag.Action(), lit("1")) },
+		func(k string) *ag.Expr { return ag.S(lit(k), ag.U(ag.Cap, lit("1"))) },
+		func(k string) *ag.Expr { return ag.S(lit(k), ag.N("R")) },
+		func(k string) *ag.Expr { return ag.S(lit(k), lit("1")) },
+	}
+	var out []*Case
+	idx := 0
+	for _, la := range []ag.Kind{ag.And, ag.Not} {
+		for i := range bodies {
+			for j := range bodies {
+				for k := range bodies {
+					choice := ag.A(bodies[i]("x"), bodies[j]("y"), bodies[k]("z"))
+					body := ag.S(ag.U(la, choice), ag.D(), ag.U(ag.Opt, ag.D()), ag.Action())
+					g := ag.G(fmt.Sprintf("F15/%d", idx), ag.Rule{Name: "S", Body: body}, ag.Rule{Name: "R", Body: ag.S(lit("1"), ag.Action())})
+					idx++
+					if !ag.Analyze(g).Reachable()["R"] {
+						g.Rules = g.Rules[:1]
+					}
+					g.Number()
+					if !wellFormed(g) {
+						continue
+					}
+					out = append(out, &Case{Family: "F15", G: g, Sigma: strs('x', 'y', 'z', '1'), MaxLen: maxLen, Variants: variants, Mode: spec.ModeBehaviour})
+				}
+			}
+		}
+	}
+	return out
+}
+
+// ---------------------------------------------------------------- NC: nested captures (the text an action sees)
+
+func NestedCaptures(maxLen int, variants []string) []*Case {
+	e, b, c := func() *ag.Expr { return lit("é") }, func() *ag.Expr { return lit("b") }, func() *ag.Expr { return lit("c") }
+	cap := func(x *ag.Expr) *ag.Expr { return ag.U(ag.Cap, x) }
+	act := ag.Action
+	gs := []*ag.Grammar{
+		ag.G("NC/0", ag.Rule{Name: "S", Body: ag.S(cap(ag.S(e(), cap(b()))), act())}),
+		ag.G("NC/1", ag.Rule{Name: "S", Body: ag.S(cap(ag.S(e(), cap(b()), act(), c())), act())}),
+		ag.G("NC/2", ag.Rule{Name: "S", Body: ag.S(cap(ag.S(e(), ag.U(ag.Opt, ag.S(cap(b()), c())))), act())}),
+		ag.G("NC/3", ag.Rule{Name: "S", Body: ag.S(cap(ag.N("A")), act())}, ag.Rule{Name: "A", Body: ag.S(e(), ag.U(ag.Star, ag.S(b(), cap(c()), act())))}),
+		ag.G("NC/4", ag.Rule{Name: "S", Body: ag.S(cap(ag.N("Sum")), act(), ag.U(ag.Not, ag.D()))}, ag.Rule{Name: "Sum", Body: ag.S(ag.N("T"), ag.U(ag.Star, ag.S(b(), ag.N("T"))))}, ag.Rule{Name: "T", Body: ag.S(cap(ag.U(ag.Plus, c())), act())}),
+		ag.G("NC/5", ag.Rule{Name: "S", Body: ag.S(cap(ag.S(cap(e()), cap(b()))), act())}),
+		ag.G("NC/6", ag.Rule{Name: "S", Body: ag.S(cap(ag.A(ag.S(e(), cap(b()), c()), ag.S(e(), b()))), act())}),
+		ag.G("NC/7", ag.Rule{Name: "S", Body: ag.S(e(), cap(ag.S(b(), ag.U(ag.And, cap(c())))), act(), c())}),
+		ag.G("NC/8", ag.Rule{Name: "S", Body: ag.U(ag.Plus, ag.S(cap(ag.S(e(), ag.U(ag.Opt, cap(b())))), act()))}),
+	}
+	var out []*Case
+	for _, g := range gs {
+		g.Number()
+		if !wellFormed(g) {
+			continue
+		}
+		out = append(out, &Case{Family: "NC", G: g, Sigma: []string{"é", "b", "c"}, MaxLen: maxLen, Variants: variants, Mode: spec.ModeBehaviour})
+	}
+	return out
+}
